@@ -62,7 +62,7 @@ example :
       = some ["obj: dict[str, Any]",
               "user_id: int",
               "class_: List[str] | None = field(default_factory=list)  # Maps from 'class'",
-              "lvl: Level | None = Level.N/A",
+              "lvl: Level | None = Level(\"N/A\")",
               "meta: dict[str, Any] | None = field(default_factory=dict)",
               "user_id_2: bool | None = True  # Maps from 'user-id'",
               "user_id_3: str | None = \"a\\\"b\\\\\"  # Maps from 'userId'"] := by decide
@@ -257,11 +257,20 @@ theorem default_str (u : UInfo) (p : DcProp) (h : usesFactory p = false) (he : r
     (hd : p.default = some (.str v)) : fieldDefault u p = renderDefaultStr v := by
   rw [fieldDefault_of_not_factory u p h, hd]; simp [he, scalarDefault]
 
-/-- A property that names an enum schema: `Name.MEMBER` with the member rule of `_get_field_default`. -/
+/-- A property that names an enum schema: the member is looked up BY VALUE (F53 repaired) - `Name("…")` with the literal of the plain
+    string branch for a `str` default, `Name(<str(default)>)` otherwise. -/
 theorem default_enum_expr (u : UInfo) (p : DcProp) (h : usesFactory p = false) (he : refersToEnum p = true)
     (d : DefaultVal) (hd : p.default = some d) :
-    fieldDefault u p = p.name.getD [] ++ '.' :: enumDefaultMember u d.pyStr := by
-  rw [fieldDefault_of_not_factory u p h, hd]; simp [he, enumDefaultExpr]
+    fieldDefault u p = enumDefaultExpr u p d := by
+  rw [fieldDefault_of_not_factory u p h, hd]; simp [he]
+
+/-- … and for a `str` default the argument of the lookup is exactly the string literal of `default_str`: by
+    `str_default_exact` it evaluates to the default for every string inside the BMP - the lookup `Level("N/A")` finds the member
+    whose VALUE is the default, whatever `EnumGenerator` named it. -/
+theorem default_enum_str_expr (u : UInfo) (p : DcProp) (h : usesFactory p = false) (he : refersToEnum p = true)
+    (v : Str) (hd : p.default = some (.str v)) :
+    fieldDefault u p = p.name.getD [] ++ '(' :: renderDefaultStr v ++ [')'] := by
+  rw [default_enum_expr u p h he _ hd]; rfl
 
 example : usesFactory { key := "n".toList, ty := some "string".toList } = false
     ∧ refersToEnum { key := "n".toList, ty := some "string".toList } = false := by decide
@@ -301,7 +310,9 @@ theorem str_default_counterexample :
       ∧ evalStrLitCp ("\"\\ud83d\\ude00\"".toList) = some [0xd83d, 0xde00]
       ∧ evalStrLit ("\"\\ud83d\\ude00\"".toList) = none := by decide
 
-/-! ## 5. the enum member named by a default versus the members `EnumGenerator` emits (finding F53) -/
+/-! ## 5. why an enum default is rendered as a lookup by value (F53, repaired): the member NAME cannot be derived by
+       `upper().replace("-","_").replace(" ","_")` - that rule (`enumDefaultMember`, what the code did before) and `EnumGenerator`'s
+       disagree on the values below, and de-duplication makes the name depend on the other values of the enum. -/
 
 /- ✗ `enum_default_member_exists`: for every string enum value `v`,
        `enumMemberStr u v = some (enumDefaultMember u v)`
@@ -321,12 +332,17 @@ theorem enum_default_member_counterexample :
     ∧ (enumDefaultMember UInfo.ascii [] = []
         ∧ enumMemberStr UInfo.ascii [] = some "MEMBER_EMPTY_STRING".toList) := by decide
 
-/-- The rendered default of the witness property: `Level.N/A` (python: `Level.N / A`, an AttributeError at import). -/
-theorem enum_default_expr_counterexample :
+/-- The rendered default of the former witness property: `Level("N/A")` (was `Level.N/A`: python `Level.N / A`, an AttributeError
+    at import). -/
+theorem enum_default_expr_by_value :
     fieldDefault UInfo.ascii
         { key := "lvl".toList, ty := some "string".toList, name := some "Level".toList,
           default := some (.str "N/A".toList), enumVals := some ["N/A".toList, "ok".toList] }
-      = "Level.N/A".toList := by decide
+      = "Level(\"N/A\")".toList ∧
+    fieldDefault UInfo.ascii
+        { key := "code".toList, ty := some "integer".toList, name := some "Code".toList,
+          default := some (.int 1), enumVals := some ["1".toList, "2".toList] }
+      = "Code(1)".toList := by decide
 
 /-- EXACT: the two rules agree on a value iff the upper-cased, `-`/space-replaced value is already of the form
     `[A-Z_][A-Z0-9_]*` and is not a python keyword when lower-cased (`enumAgree`, decidable). -/
